@@ -127,7 +127,7 @@ func instrument(n *spec.Node, r *rng.Rand) {
 
 // addrSet collects the addresses (with types) of every addressable position inside the destination.
 func addrSet(v reflect.Value, out map[string]bool, depth int) {
-	if depth > 12 || !v.IsValid() {
+	if depth > 60 || !v.IsValid() {
 		return
 	}
 	if v.CanAddr() {
